@@ -53,6 +53,7 @@ class Run:
         self.exhaustive = False
         self.quiet = quiet
         self.extra: t.Dict[str, t.Any] = {}
+        self.deferred_errors: t.List[str] = []
 
     # ---- recording
     def ob(self, rule: str, construct: str, ok: bool, loc: str, msg: str, detail=None, nontrivial=True) -> bool:
@@ -78,9 +79,30 @@ class Run:
     def note(self, s: str):
         self.notes.append(s)
 
+    def part(self, name: str):
+        """context manager for an independent group of rules: if the analysis of this group gives up (AnalysisError)
+        the other groups are still evaluated.  The run then ends undecided (exit 2) unless another group
+        established a violation, which is definite on its own."""
+        return _Part(self, name)
+
     # ---- results
     def violations(self) -> t.List[Obligation]:
         return [o for o in self.obs if not o.ok]
+
+
+class _Part:
+    def __init__(self, run: Run, name: str):
+        self.run, self.name = run, name
+
+    def __enter__(self):
+        return self
+
+    def __exit__(self, et, ev, tb):
+        from .facts import AnalysisError
+        if et is not None and issubclass(et, AnalysisError):
+            self.run.deferred_errors.append(f"[{self.name}] {ev}")
+            return True
+        return False
 
 
 def load_known() -> t.List[dict]:
@@ -215,6 +237,8 @@ def subrun(module, pid: str, prog, tier: str, seed: int = 0) -> Run:
     sub = Run(pid, tier, seed, quiet=True)
     try:
         module.check(sub, prog, tier)
+        if sub.deferred_errors:
+            raise AnalysisError("; ".join(sub.deferred_errors))
     except AnalysisError:
         if not sub.violations():
             raise
